@@ -54,6 +54,10 @@ How the code is read (so that behaviour-preserving rewrites stay silent):
   * a local bound once to a plain copy of another local (``op = raw_op``, also what inlining a helper that returns
     ``(name, op, type_name)`` leaves behind) stands for what the other held *when the copy was taken*: the ':'
     normalisation and the default type must have been applied on every path to the copy;
+  * the binding parser may live in a helper of a new private module (the front-end expands ``helper(part)`` imported by name, see
+    normalize.collect_imported_helpers); what that leaves -- ``b = None`` / ``b = m.group('name', 'op', 'type')`` in the arms of one
+    test of the match, ``if b is None`` later -- is read as the test of the match itself (``_opt_fact``); BINDING is read in the module
+    that defines it; a rejection may test the sister tables one by one (``k not in T1 or k not in T2``);
   * build_converter (and the class it may instantiate) is read in the module its definition lives in (route.py may import it back);
   * build_converter is read as a *model* (``_ConvModel``): which function runs for a multi / single binding and how it spells the
     converter, the optional flag and the captured text -- two closures, or an instance of a private callable class whose
@@ -149,6 +153,10 @@ def _defs(fi, name, _depth=0):
             if tgt and len(pd) == 1 and isinstance(pd[0], (ast.Tuple, ast.List)) and len(pd[0].elts) == len(tgt[0].elts) and \
                     not any(isinstance(e, ast.Starred) for e in list(tgt[0].elts) + list(pd[0].elts)):
                 out.append((st, pd[0].elts[idx]))
+            elif tgt and len(pd) == 1 and _is_multi_group(pd[0]) and len(pd[0].args) == len(tgt[0].elts) and \
+                    not any(isinstance(e, ast.Starred) for e in tgt[0].elts):
+                # a, b = pair  with  pair = m.group('x', 'y')
+                out.append((st, ast.copy_location(ast.Call(func=pd[0].func, args=[pd[0].args[idx]], keywords=[]), pd[0])))
             else:
                 out.append((st, None))
         elif isinstance(idx, int) and isinstance(st, ast.Assign) and _is_multi_group(val):
@@ -232,6 +240,73 @@ def _inline(fi, expr, stable=(), outer=None, depth=0):
             return node
 
     return T().visit(copy.deepcopy(expr))
+
+
+def _opt_fact(fi, t, pol):
+    """(t, pol) -> the equivalent fact about the test that decided an *optional result*, when ``t`` asks whether local ``v`` is None /
+    empty and ``v`` is bound exactly twice, in the two arms of one ``if T: v = None / else: v = <a non-empty tuple>`` (what inlining a
+    helper ``return None`` / ``return m.group('a', 'b')`` leaves behind): then ``v is None`` holds exactly when that arm was taken.
+    Required: the ``if`` is an earlier statement of a block enclosing the test (so the test sees the value this run of the block gave
+    it), and every name T reads is a parameter or bound once, by an earlier statement of the same block as the ``if``.
+    Anything else: the fact unchanged."""
+    inner, flip = t, False
+    while isinstance(inner, ast.UnaryOp) and isinstance(inner.op, ast.Not):
+        inner, flip = inner.operand, not flip
+    if isinstance(inner, ast.Name):
+        v, none_pol = inner.id, flip            # ``v`` true <=> not None ; ``not v`` true <=> None
+    elif isinstance(inner, ast.Compare) and len(inner.ops) == 1 and isinstance(inner.left, ast.Name) and \
+            isinstance(inner.comparators[0], ast.Constant) and inner.comparators[0].value is None and isinstance(inner.ops[0], (ast.Is, ast.IsNot)):
+        v, none_pol = inner.left.id, (isinstance(inner.ops[0], ast.Is) != flip)
+    else:
+        return t, pol
+    params = _all_params(fi)
+    if v in params or _stores(fi.node, v) != 2:
+        return t, pol
+    mod = fi.mod
+    for I in stmts_of(fi.node):
+        if not isinstance(I, ast.If) or not I.orelse:
+            continue
+        arms = []
+        for arm in (I.body, I.orelse):
+            sts = [x for x in arm if isinstance(x, ast.Assign) and len(x.targets) == 1 and isinstance(x.targets[0], ast.Name) and x.targets[0].id == v]
+            arms.append(sts[0].value if len(sts) == 1 else None)
+        if arms[0] is None or arms[1] is None:
+            continue
+        is_none = [isinstance(a, ast.Constant) and a.value is None for a in arms]
+        some = [(isinstance(a, ast.Tuple) and bool(a.elts) and isinstance(a.ctx, ast.Load)) or _is_multi_group(a) for a in arms]
+        if not ((is_none[0] and some[1]) or (is_none[1] and some[0])):
+            continue
+        # the ``if`` is an earlier sibling of the statement holding the test (or of one of its ancestors)
+        cur, ok = mod.parents.get(t), False
+        while cur is not None and cur is not fi.node:
+            par = mod.parents.get(cur)
+            for fld in ('body', 'orelse', 'finalbody'):
+                blk = getattr(par, fld, None)
+                if isinstance(blk, list) and any(x is cur for x in blk) and any(x is I for x in blk):
+                    ok = [x is I for x in blk].index(True) < [x is cur for x in blk].index(True)
+            if ok:
+                break
+            cur = par
+        if not ok:
+            continue
+        blk = [b for fld in ('body', 'orelse', 'finalbody') for b in [getattr(mod.parents.get(I), fld, None)] if isinstance(b, list) and any(x is I for x in b)]
+        before = blk[0][:[x is I for x in blk[0]].index(True)] if blk else []
+        stable = True
+        for n in names_loaded(I.test):
+            if n in params and not _stores(fi.node, n):
+                continue
+            k = _stores(fi.node, n)
+            if k == 0:
+                continue           # a global / builtin the function never binds
+            d = _defs(fi, n)
+            if k != 1 or len(d) != 1 or not any(x is d[0][0] for x in before):
+                stable = False
+        if not stable:
+            continue
+        # none_pol: the polarity of ``t`` under which v is None;  v is None <=> the None arm ran <=> T (body) / not T (orelse)
+        holds_none = (pol == none_pol)
+        return I.test, (holds_none if is_none[0] else not holds_none)
+    return t, pol
 
 
 def _item_stores(fi, name):
@@ -1000,10 +1075,25 @@ def _rule_c(rep, R):
             return ('in' if isinstance(t.ops[0], ast.In) else 'notin'), norm(t.left)
         return None, None
 
+    def absent_fact(t, pol, tables):
+        """key text when (t, pol) says "key is missing from a table of the family"; a disjunction of such facts about ONE key
+        (``k not in T1 or k not in T2``, or ``not (k in T1 and k in T2)``) says the key is missing from one of them -- the
+        sister tables have the same keys (R05.a registration / R05.b), so it is the same rejection written per table"""
+        while isinstance(t, ast.UnaryOp) and isinstance(t.op, ast.Not):
+            t, pol = t.operand, not pol
+        k, key = membership(t, tables)
+        if (k == 'notin' and pol is True) or (k == 'in' and pol is False):
+            return key
+        if isinstance(t, ast.BoolOp) and ((isinstance(t.op, ast.Or) and pol is True) or (isinstance(t.op, ast.And) and pol is False)):
+            keys = [absent_fact(v, pol, tables) for v in t.values]
+            if keys and None not in keys and len(set(keys)) == 1:
+                return keys[0]
+        return None
+
     def absent_from(cs, tables):
         for t, pol in cs:
-            k, key = membership(t, tables)
-            if (k == 'notin' and pol is True) or (k == 'in' and pol is False):
+            key = absent_fact(t, pol, tables)
+            if key is not None:
                 return key
         return None
 
@@ -1027,7 +1117,8 @@ def _rule_c(rep, R):
         for t, pol in cs:
             if id(t) not in in_loop or isinstance(t, ast.BoolOp) or implies_absent([(t, pol)], var):
                 continue
-            if loopvar is not None and implies_present([(_inline(cp, t, stable=(loopvar,)), pol)], 'BINDING.match(%s)' % loopvar):
+            if loopvar is not None and implies_present([(lambda f: (_inline(cp, f[0], stable=(loopvar,)), f[1]))(_opt_fact(cp, t, pol))],
+                                                       'BINDING.match(%s)' % loopvar):
                 continue
             if any((norm(t), not pol) in [(norm(t2), p2) for t2, p2 in conds(cp, r2)] for r2 in rz):
                 continue        # what is left over from another rejection: that one raises under the opposite fact
@@ -1648,9 +1739,15 @@ def _rule_e_bindings(rep, R, convs, pats):
     # BINDING grammar
     try:
         b = None
-        for v in route.assigns.get('BINDING', []):
-            if isinstance(v, ast.Call) and norm(v.func) == 're.compile' and len(v.args) == 1 and not v.keywords:
-                b = repo.fold(v.args[0], route)
+        bmod, bvals = route, route.assigns.get('BINDING', [])
+        if not bvals and 'BINDING' in route.imports:
+            # the table moved to another module of the package and is imported back under its name: read where it is defined
+            k, m, vals = repo.resolve(route, 'BINDING')
+            if k == 'value' and m is not None and not m.external:
+                bmod, bvals = m, vals
+        for v in bvals:
+            if isinstance(v, ast.Call) and norm(v.func) == 're.compile' and bmod.imports.get('re') == ('re', None) and len(v.args) == 1 and not v.keywords:
+                b = repo.fold(v.args[0], bmod)
         gd = regexq.parse(b).state.groupdict
     except Exception as e:
         raise AnalysisError('BINDING regex: %s' % e)
@@ -1868,7 +1965,8 @@ def _rule_g_segments(rep, R):
     # facts established inside the loop (the guards before the loop hold for every part alike); tests of the match object are
     # read through the local that names it
     loop_facts = lambda st: [(t, pol) for t, pol in conds(cp, st) if id(t) in in_loop]
-    facts = lambda st: [(_inline(cp, t, stable=(part,)), pol) for t, pol in loop_facts(st)]
+    ofact = lambda t, pol: (lambda f: (_inline(cp, f[0], stable=(part,)), f[1]))(_opt_fact(cp, t, pol))
+    facts = lambda st: [ofact(t, pol) for t, pol in loop_facts(st)]
     lit = [a for a, v in appends if id(a) in in_loop]
     ok = len(lit) == 1 and len(appends) == 1 and norm(_inline(cp, appends[0][1], stable=(part,))) == part and implies_absent(facts(lit[0]), mtext) and \
         all(implies_absent([f], mtext) or (isinstance(f[0], ast.BoolOp)) for f in facts(lit[0]))
@@ -1961,7 +2059,7 @@ def _rule_g_segments(rep, R):
              has_cond(conds(cp, r), lambda t: isinstance(t, ast.Compare) and len(t.ops) == 1 and isinstance(t.ops[0], ast.NotIn) and norm(t.comparators[0]) == R.vcm, False))]
     if dups:
         extra = [(t, pol) for t, pol in loop_facts(dups[0]) if not (
-            isinstance(t, ast.BoolOp) or implies_present([(_inline(cp, t, stable=(part,)), pol)], mtext) or
+            isinstance(t, ast.BoolOp) or implies_present([ofact(t, pol)], mtext) or
             (isinstance(t, ast.Compare) and len(t.ops) == 1 and isinstance(t.ops[0], (ast.In, ast.NotIn)) and norm(t.comparators[0]) == R.vcm))]
         ok = not extra
         rep.check('R05.g', fkey(cp, 'duplicate test for every binding'), ok, 'every binding name is tested against the names seen so far' if ok else
